@@ -166,6 +166,14 @@ func timeOf(v value) (symTime, bool) {
 		return symTime{}, false
 	}
 	t, ok := st[0].(symTime)
+	if !ok {
+		// the zero time.Time (what time.Parse returns next to an error)
+		if w, isU := st[0].(uint64); isU && w == 0 {
+			if e, isI := st[1].(int64); isI && e == 0 {
+				return concreteTime(time.Time{}), true
+			}
+		}
+	}
 	return t, ok
 }
 
@@ -313,7 +321,22 @@ func (i *interpreter) parseTime(layout string, s bstr) (sym, symTime) {
 		return mkBool("(and " + strings.Join(conds, " ") + ")"),
 			symTime{zero, one, one, sym{sInt, 0, h}, sym{sInt, 0, mi}, sym{sInt, 0, sec}, sym{sInt, 0, ns}}
 	}
-	panic(unsupported("time.Parse layout " + layout + " on a byte string (only DateOnly and TimeOnly are modelled)"))
+	// any other layout: an OVER-APPROXIMATION of the documented contract -- parsing succeeds or
+	// fails (a free boolean), and a success yields some valid time.  Whatever a check concludes
+	// from it is decided by the native replay on the concrete bytes of the model (a verdict that
+	// rests on this approximation and does not reproduce is reported as spurious, never as a
+	// violation).
+	x := i.x
+	x.nParse++
+	okv := x.named(fmt.Sprintf("timeparse!%d.ok", x.nParse), sBool, 0)
+	fresh := func(what string, lo, hi int64) sym {
+		v := x.freshInt(fmt.Sprintf("timeparse!%d.%s", x.nParse, what), 62)
+		x.PC = append(x.PC, fmt.Sprintf("(<= %d %s)", lo, v.t), fmt.Sprintf("(<= %s %d)", v.t, hi))
+		return v
+	}
+	y, mo, d := fresh("year", 0, 9999), fresh("month", 1, 12), fresh("day", 1, 31)
+	x.PC = append(x.PC, "(<= "+d.t+" "+daysIn(y.t, mo.t)+")")
+	return okv, symTime{y, mo, d, fresh("hour", 0, 23), fresh("minute", 0, 59), fresh("second", 0, 59), fresh("nano", 0, 999999999)}
 }
 
 func sameTime(a, b symTime) sym {
